@@ -294,6 +294,7 @@ func (m *MethodMocker) Return(value ...interface{}) *When {
 		when *When
 		err  error
 	)
+	checkReturnCount(m.methodIns, value)
 	if when, err = CreateWhen(m, m.methodIns, nil, value, true); err != nil {
 		panic(err)
 	}
@@ -549,6 +550,7 @@ func (m *DefMocker) Return(value ...interface{}) *When {
 		when *When
 		err  error
 	)
+	checkReturnCount(m.funcDef, value)
 	if when, err = CreateWhen(m, m.funcDef, nil, value, false); err != nil {
 		panic(err)
 	}
